@@ -25,6 +25,10 @@ def observe(cmd, args):
     if cmd == "sp.contains":
         sp = mk(args[0])
         if sp is None: return "ES"
+        if len(args) > 3 and args[3] in "TF" and args[3]:
+            # the object's own setting: constructor keyword, or attribute assigned after construction (args[4] == "a")
+            if len(args) > 4 and args[4] == "a": sp.prereleases = TRI[args[3]]
+            else: sp = Specifier(args[0], prereleases=TRI[args[3]])
         r = contains(sp, args[2], TRI[args[1]])
         if TRI[args[1]] is None and r in "TF":
             try:
